@@ -4,6 +4,7 @@ import (
 	"encoding/json"
 	"fmt"
 	"github.com/vektah/gqlparser/v2/gqlerror"
+	"github.com/vektah/gqlparser/v2/parser"
 	"strconv"
 	"strings"
 
@@ -243,6 +244,29 @@ func argRows(c *core.Ctx, devs string, schema, first *ast.Schema, bigOpen bool) 
 			}
 			if len(errs) == 0 {
 				docCache[q] = doc
+			}
+		}
+		if big && !cached {
+			// the same document under the without-suggestions variants of the rules: whatever rule list lets a literal
+			// through, resolving the arguments afterwards returns normally
+			if dv, perr := parser.ParseQuery(&ast.Source{Name: "q.graphql", Input: q}); perr == nil {
+				var verrs gqlerror.List
+				func() {
+					defer guard("validator.Validate (without-suggestions variants)", q)()
+					verrs = validator.Validate(schema, dv, rulesWithVariants()...)
+				}()
+				if len(verrs) == 0 {
+					fv := dv.Operations[0].SelectionSet[0].(*ast.Field)
+					for name, fn := range map[string]func() map[string]interface{}{
+						"Field.ArgumentMap":     func() map[string]interface{} { return fv.ArgumentMap(map[string]interface{}{}) },
+						"Directive.ArgumentMap": func() map[string]interface{} { return fv.Directives[0].ArgumentMap(map[string]interface{}{}) },
+					} {
+						if _, crash := argMapOf(fn); crash != "" && !(bigOpen && ac.Arg == "a") {
+							c.Violation(fmt.Sprintf("%s on %s (validated with the without-suggestions variants of the rules): %s", name, q, crash), map[string]any{"query": q, "crash": crash, "rules": "without suggestions"})
+						}
+					}
+					c.AddExtraInt("big_literal_rows_accepted_by_variant_rules", 1)
+				}
 			}
 		}
 		if len(errs) > 0 {
